@@ -408,9 +408,17 @@ func check(c Case) pbt.Verdict {
 		ctx, cancel := context.WithTimeout(context.Background(), 20*time.Second)
 		for i, th := range c.Threads {
 			for _, o := range th {
-				if msg := r.exec(ctx, i, o); msg != "" {
+				done := make(chan string, 1)
+				go func() { done <- r.exec(ctx, i, o) }()
+				select {
+				case msg := <-done:
+					if msg != "" {
+						cancel()
+						return pbt.Failf("sequential:"+o.Kind, "sequential run: %s\n%s", msg, describe(c))
+					}
+				case <-time.After(5 * time.Second):
 					cancel()
-					return pbt.Failf("sequential:"+o.Kind, "sequential run: %s\n%s", msg, describe(c))
+					return pbt.Failf("hang:sequential-"+o.Kind, "%s, run alone with nothing else going on, did not return within 5 s\n%s", o.text(), describe(c))
 				}
 			}
 		}
@@ -442,6 +450,7 @@ func check(c Case) pbt.Verdict {
 		}()
 	}
 	overlap := false
+	waited := false
 	pending := make([]int, nGates)
 	for _, e := range c.Sched {
 		switch e.Kind {
@@ -467,18 +476,24 @@ func check(c Case) pbt.Verdict {
 			}
 			g.release <- struct{}{}
 		case "inline":
-			// inline operations must not park the scheduler: they are never gated
+			// inline operations are never gated themselves. An implementation may make them wait
+			// for an update function that is parked at a gate: that is not a hang, so the schedule
+			// goes on after a short wait and the operation only has to finish once all gates are open.
 			o := *e.Op
 			o.Gate = -1
-			done := make(chan string, 1)
-			go func() { done <- r.exec(ctx, len(c.Threads), o) }()
-			select {
-			case msg := <-done:
-				if msg != "" {
+			wg.Add(1)
+			done := make(chan struct{})
+			go func() {
+				defer wg.Done()
+				if msg := r.exec(ctx, len(c.Threads), o); msg != "" {
 					bad.Store(msg)
 				}
-			case <-time.After(5 * time.Second):
-				return pbt.Failf("hang:inline-"+o.Kind, "the operation %s issued while an update function was parked did not return within 5 s\n%s", o.text(), describe(c))
+				close(done)
+			}()
+			select {
+			case <-done:
+			case <-time.After(150 * time.Millisecond):
+				waited = true
 			}
 		case "sleep":
 			time.Sleep(time.Duration(e.Ms) * time.Millisecond)
@@ -524,6 +539,9 @@ func check(c Case) pbt.Verdict {
 	v.NonTrivial = overlap
 	if overlap {
 		v.Labels = append(v.Labels, "gated-overlap")
+	}
+	if waited {
+		v.Labels = append(v.Labels, "inline-op-waited-for-parked-update")
 	}
 	v.Labels = append(v.Labels, fmt.Sprintf("threads:%d", len(c.Threads)))
 	return v
